@@ -944,3 +944,186 @@ pub fn c02_def() -> HistProp {
         assumptions: &["the remount oracle runs at every state on a snapshot of the medium, through a fresh VolumeManager and through refat", "clock values have even seconds; zero-length writes are not in the alphabet"],
     }
 }
+
+// ---------------------------------------------------------------------------
+// C09 / C10 — power loss at every block write (E3: crash-prefix enumeration)
+// ---------------------------------------------------------------------------
+
+/// The images after each prefix of the transition's write log: index k = after k writes (k = 1..=n).
+pub fn crash_images(st: &Step) -> Vec<(usize, Image)> {
+    let mut out = Vec::new();
+    let Some(pre) = &st.pre else { return out };
+    let mut cur = pre.clone();
+    let mut k = 0;
+    for c in st.log.iter().filter(|c| c.write && c.ok) {
+        cur.put(c.idx, c.data.as_ref().unwrap());
+        k += 1;
+        out.push((k, cur.clone()));
+    }
+    out
+}
+
+pub struct CrashConsistency;
+
+const C10_KINDS: &[&str] = &[
+    "chain/start-out-of-range",
+    "chain/passes-through-free-entry",
+    "chain/passes-through-bad-entry",
+    "chain/link-out-of-range",
+    "chain/cycle",
+    "chain/shared-cluster",
+    "subdir/no-cluster",
+    "dir/stale-entries-exposed",
+    "dir/loop",
+    "dir/bad-dot",
+    "dir/bad-dotdot",
+];
+
+impl Oracle for CrashConsistency {
+    fn check(&self, sc: &Scenario, hist: &[Op], _w: &World, st: &Step, out: &mut Vec<Violation>) {
+        let Some(pre) = &st.pre else { return };
+        let imgs = crash_images(st);
+        if imgs.is_empty() {
+            return;
+        }
+        let vcx = vc(sc);
+        let ppre = problem_set(&view(vcx, pre));
+        let n = imgs.len();
+        for (k, img) in imgs {
+            let vw = view(vcx, &img);
+            for p in &vw.tree.problems {
+                if C10_KINDS.contains(&p.kind.as_str()) && !ppre.contains(&(p.kind.clone(), p.detail.clone())) {
+                    out.push(viol(
+                        "C10",
+                        format!("crash/{}@{}", p.kind, st.op.kind()),
+                        format!("power cut after write {} of {} of {}: {}", k, n, st.op.show(), p.detail),
+                        sc,
+                        hist,
+                    ));
+                }
+            }
+            // the crate must mount the medium and list the whole tree
+            if let Err(e) = crate::medium::remount_list(&img, vcx.slot) {
+                // only if the pre-image was fine
+                if crate::medium::remount_list(pre, vcx.slot).is_ok() {
+                    out.push(viol(
+                        "C10",
+                        format!("crash/crate-cannot-list-medium@{}", st.op.kind()),
+                        format!("power cut after write {} of {} of {}: fresh mount: {}", k, n, st.op.show(), e),
+                        sc,
+                        hist,
+                    ));
+                }
+            }
+        }
+    }
+}
+
+pub struct CrashDurability;
+
+impl Oracle for CrashDurability {
+    fn check(&self, sc: &Scenario, hist: &[Op], _w: &World, st: &Step, out: &mut Vec<Violation>) {
+        let imgs = crash_images(st);
+        if imgs.is_empty() {
+            return;
+        }
+        let vcx = vc(sc);
+        let pre_m = sc_model_pre(sc, hist);
+        let (tgt, _) = targets(&pre_m, &st.op);
+        let modifies_target = matches!(st.op, Op::Write { .. } | Op::Fill { .. } | Op::Delete { .. }) || matches!(st.op, Op::Open { mode, .. } if mode == M_TRUNC || mode == M_CREATE_TRUNC);
+        // flushed files of the pre-state
+        let mut flushed: Vec<(String, Vec<u8>)> = Vec::new();
+        if let Some(root) = pre_m.vols[vcx.slot].as_ref() {
+            let mut stack: Vec<(String, &MDir)> = vec![("".into(), root)];
+            while let Some((path, d)) = stack.pop() {
+                for (k, n) in &d.ch {
+                    let p = format!("{}/{}", path, key_str(k));
+                    match n {
+                        MNode::Dir(s) => stack.push((p, s)),
+                        MNode::File(f) => {
+                            if f.opaque || (modifies_target && Some(&p) == tgt.as_ref()) {
+                                continue;
+                            }
+                            if let Some(d) = &f.durable {
+                                flushed.push((p, d.clone()));
+                            }
+                        }
+                    }
+                }
+            }
+        }
+        let n = imgs.len();
+        for (k, img) in imgs {
+            let vw = view(vcx, &img);
+            let dump = remount_dump(&img, vcx.slot);
+            for (p, data) in &flushed {
+                let what = format!("power cut after write {} of {} of {}", k, n, st.op.show());
+                match vw.tree.find(p) {
+                    Some(x) if !x.is_dir && x.ent.size as usize >= data.len() => {
+                        let bytes = refat::read_chain_bytes(&img, &vcx.vol, &x.chain, data.len() as u32);
+                        if &bytes != data {
+                            out.push(viol("C09", format!("crash-durability/contents@{}", st.op.kind()), format!("{}: flushed file {} no longer holds its flushed contents", what, p), sc, hist));
+                        }
+                    }
+                    Some(x) if !x.is_dir => out.push(viol("C09", format!("crash-durability/shorter@{}", st.op.kind()), format!("{}: flushed file {} has size {} < flushed length {}", what, p, x.ent.size, data.len()), sc, hist)),
+                    _ => out.push(viol("C09", format!("crash-durability/missing@{}", st.op.kind()), format!("{}: flushed file {} is gone", what, p), sc, hist)),
+                }
+                match &dump {
+                    Ok(dm) => match dm.get(p) {
+                        Some(s) if s.data.as_ref().map(|d| d.len() >= data.len() && d[..data.len()] == data[..]).unwrap_or(false) => {}
+                        other => out.push(viol(
+                            "C09",
+                            format!("crash-durability/crate-remount@{}", st.op.kind()),
+                            format!("{}: fresh mount by the crate shows {} as {:?} bytes, flushed {}", what, p, other.and_then(|s| s.data.as_ref().map(|d| d.len())), data.len()),
+                            sc,
+                            hist,
+                        )),
+                    },
+                    Err(e) => out.push(viol("C09", format!("crash-durability/crate-cannot-read-medium@{}", st.op.kind()), format!("{}: {}", what, e), sc, hist)),
+                }
+            }
+        }
+    }
+}
+
+fn crash_scenarios(tier: &str, prefix: &'static str) -> Vec<(String, ScenMaker)> {
+    let mut out = Vec::new();
+    let quick = tier == "quick";
+    let kinds: &[VolKind] = if quick { &[VolKind::V16a, VolKind::V32a] } else { &[VolKind::V16a, VolKind::V16b, VolKind::V32a, VolKind::V32b] };
+    for &k in kinds {
+        for (fr, sub_free) in [(None, 1usize), (None, 0), (Some(3usize), 0)] {
+            if quick && fr.is_some() {
+                continue;
+            }
+            let mut o = base_opts(k, fr, if quick { 3 } else { 4 }, Alpha::Mutate);
+            o.sub_free_slots = sub_free;
+            o.victim = false;
+            out.push(maker(o, prefix));
+        }
+    }
+    out
+}
+
+pub fn c09_def() -> HistProp {
+    HistProp {
+        id: "C09",
+        level: "fault_enumeration",
+        scenarios: |t| crash_scenarios(t, "crash-dur"),
+        oracles: || vec![Box::new(CrashDurability)],
+        budget_s: |t| if t == "quick" { 45 } else { 3000 },
+        max_states: 2_000_000,
+        assumptions: &["block writes are atomic and ordered (as the property assumes)", "every prefix of the write log of every explored transition is a crash image"],
+    }
+}
+
+pub fn c10_def() -> HistProp {
+    HistProp {
+        id: "C10",
+        level: "fault_enumeration",
+        scenarios: |t| crash_scenarios(t, "crash"),
+        oracles: || vec![Box::new(CrashConsistency)],
+        budget_s: |t| if t == "quick" { 45 } else { 3000 },
+        max_states: 2_000_000,
+        assumptions: &["block writes are atomic and ordered (as the property assumes)", "free clusters carry a stale pattern of plausible directory entries so exposure of uninitialised contents is visible", "permitted residue: allocated-but-unreferenced clusters and a size not yet updated"],
+    }
+}
